@@ -27,8 +27,44 @@ def run(ctx):
         bs = protocheck.writer_stream(ctx, g, batch, ir, auxinfo, "RT%d" % i)
         if bs is None:
             continue
-        protocheck.roundtrip_stream(ctx, g, batch, ir, auxinfo, bs, "RT%d" % i)
+        loaded = protocheck.roundtrip_stream(ctx, g, batch, ir, auxinfo, bs, "RT%d" % i)
         ctx.case(repr(bs), len(bs) > 60)
+        if i % 3 == 1 and loaded is not None and not ctx.findings:
+            # load, EDIT the loaded IR (attributes, tables read and changed in place, one table left unread), save it, load again:
+            # the third IR equals the edited second one
+            by_uuid = {n.uuid: n for n in content.reach(loaded)}
+            aux2 = []
+            for k, (cont, key, t, v) in enumerate(auxinfo):
+                c2 = by_uuid.get(cont.uuid)
+                if c2 is None or key not in c2.aux_data:
+                    continue
+                if t[0] == "__raw__" or k % 3 == 2:
+                    aux2.append((c2, key, t, v))           # left unread on purpose: expected with the value the first IR held
+                    continue
+                try:
+                    v2 = c2.aux_data[key].data
+                except Exception:  # noqa: BLE001
+                    continue
+                if t[0] == "sequence" and isinstance(v2, list) and v2 and ctx.rng.random() < 0.7:
+                    v2.append(v2[0])
+                aux2.append((c2, key, t, v2))
+            for y in loaded.symbols:
+                y.name = y.name + "~"
+                y.at_end = not y.at_end
+                break
+            for bi2 in loaded.byte_intervals:
+                if bi2.size < (1 << 63):
+                    bi2.size = bi2.size + 1
+                    break
+            for m2 in loaded.modules:
+                if abs(m2.rebase_delta) < (1 << 62):
+                    m2.rebase_delta = 5 - m2.rebase_delta
+                    break
+            bs3 = protocheck.writer_stream(ctx, g, batch, loaded, aux2, "RT%d:edited-after-load" % i)
+            if bs3 is not None:
+                protocheck.roundtrip_stream(ctx, g, batch, loaded, aux2, bs3, "RT%d:edited-after-load" % i)
+                ctx.count("saves_of_edited_loaded_irs")
+                ctx.case(repr(bs3), True)
         if i % 3 == 0:
             # the SAME in-memory IR saved a second time after in-place edits (values reached through .data, attributes of nodes):
             # nothing remembered from the first save may survive into the second file
